@@ -20,7 +20,7 @@ func TestVerifC09(t *testing.T) {
 	defer rec.finish(t)
 	env := rec.env
 	var caseIdx int64
-	n := env.pickN(192, 4800)
+	n := env.pickN(192, 2400)
 	for q := 0; q < n; q++ {
 		idx := caseIdx
 		caseIdx++
